@@ -923,26 +923,86 @@ def run(idx, rep, tier):
              'for a connection that is gone closes the new socket - the '
              'open that asked for it fails with "SSH connection closed" '
              'and nobody else holds the forwarder')
-    _ff = k.func(CONN + 'forward_connection')
-    _gf = k.cfg(_ff)
-    _cc = [n for n, c in k.calls_named(_ff, 'create_connection')]
-    _tst = [a.id for a in _gf.nodes if a.kind == 'atom' and
-            dotted(a.ast) in ('self._transport',)]
-    rep.floor('C20.R17', 'destination connects', len(_cc), 1)
-    for _n in _cc:
-        _bad = None
-        for _b, _lab in _gf.succ[_n.id]:
-            if _lab == 'exc' or _b in _tst:
-                continue
-            _bad = _bad or _gf.path(_b, _gf.exit, blocked_nodes=_tst,
-                                    follow_exc=False)
-        _cl = [c for c in ast.walk(_ff.node) if is_call(c, 'close')]
-        rep.check(_bad is None and bool(_cl), 'C20.R17',
-                  key(_ff, 'socket of an abandoned open is closed'),
-                  'self._transport tested after the connect, close() on '
-                  'the dead branch',
-                  'the client drops the SSH connection while the server '
-                  'is still connecting a direct-tcpip destination: the '
-                  'connect completes afterwards and the socket is never '
-                  'closed (one fd per open-then-drop)', k.loc(_ff, _n),
-                  _gf.describe_path(_bad) if _bad else None)
+    _nsib = 0
+    for _q, _callee in (('forward_connection', 'create_connection'),
+                        ('forward_unix_connection',
+                         'create_unix_connection'),
+                        ('forward_tunneled_connection', 'create_connection'),
+                        ('forward_tunneled_unix_connection',
+                         'create_unix_connection')):
+        _qq = CONN + _q if k.idx.has_func(CONN + _q) else \
+            'connection.SSHServerConnection.' + _q
+        if not k.idx.has_func(_qq):
+            continue
+        _ff = k.func(_qq)
+        _gf = k.cfg(_ff)
+        _cc = [n for n, c in k.calls_named(_ff, _callee)]
+        _tst = [a.id for a in _gf.nodes if a.kind == 'atom' and
+                dotted(a.ast) in ('self._transport',)]
+        _nsib += len(_cc)
+        for _n in _cc:
+            _bad = None
+            for _b, _lab in _gf.succ[_n.id]:
+                if _lab == 'exc' or _b in _tst:
+                    continue
+                _bad = _bad or _gf.path(_b, _gf.exit, blocked_nodes=_tst,
+                                        follow_exc=False)
+            _cl = [c for c in ast.walk(_ff.node) if is_call(c, 'close')]
+            rep.check(_bad is None and bool(_cl), 'C20.R17',
+                      key(_ff, 'socket of an abandoned open is closed'),
+                      'self._transport tested after the connect, close() on '
+                      'the dead branch',
+                      'the SSH connection is dropped while the destination '
+                      '(or the upstream channel of a tunneled forward) is '
+                      'still being connected: the connect completes '
+                      'afterwards and the socket / upstream channel is '
+                      'never closed', k.loc(_ff, _n),
+                      _gf.describe_path(_bad) if _bad else None)
+    rep.floor('C20.R17', 'destination connects of the forward_* family',
+              _nsib, 4)
+    rep.rule('C20.R18', 'SSHForwardListener.close is idempotent: the '
+             'de-registration (close_forward_listener) happens only while '
+             'self._conn is set, and self._conn is cleared on that path '
+             'before the function returns - a second close() of an old '
+             'listener must not pop the registration of a newer listener '
+             'bound to the same address (which the connection cleanup '
+             'would then never close)')
+    _flc = k.func('listener.SSHForwardListener.close')
+    _glc = k.cfg(_flc)
+    _dr = [n for n, c in k.calls_named(_flc, 'close_forward_listener')]
+    _cl = [n.id for n, v in k.stores_to(_flc, 'self._conn')
+           if isinstance(v, ast.Constant) and v.value is None]
+    rep.floor('C20.R18', 'listener de-registrations', len(_dr), 1)
+    for _n in _dr:
+        _g1 = _glc.guarded_by(_n.id, atom_truthy_of('self._conn'))
+        _g2 = _glc.path(_n.id, _glc.exit, blocked_nodes=_cl, follow_exc=False)
+        rep.check(_g1 is None and bool(_cl) and _g2 is None, 'C20.R18',
+                  key(_flc, 'second close is a no-op'),
+                  'guarded by self._conn, which is cleared before return',
+                  'L1 on port P closed, L2 opened on P, L1 closed again '
+                  '(async with): L2 loses its registration and keeps '
+                  'listening after conn.close()', k.loc(_flc, _n))
+    rep.rule('C20.R19', 'SSHClientConnection.create_server: the listen host '
+             'is lower-cased before it is sent and before the listener is '
+             'filed under it - the server reports arriving connections '
+             'under the lower-case name, so a listener filed as "LocalHost" '
+             'is never found ("No such listener")')
+    _fcs = k.func('connection.SSHClientConnection.create_server')
+    _gcs = k.cfg(_fcs)
+    _low = [n.id for n, v in k.stores_to(_fcs, 'listen_host')
+            if v is not None and is_call(v, 'lower')]
+    _use = [n for n, c in k.call_nodes(_fcs, lambda c: (
+        is_call(c, 'SSHTCPClientListener') or (
+            isinstance(c.func, ast.Subscript) and
+            dotted(c.func.value) == 'SSHTCPClientListener') or
+        is_call(c, '_make_global_request')) and any(
+            'listen_host' in names_read(a) for a in c.args))]
+    rep.floor('C20.R19', 'uses of the listen host', len(_use), 2)
+    for _n in _use:
+        _w = _gcs.path(_gcs.entry, _n.id, blocked_nodes=_low)
+        rep.check(bool(_low) and _w is None, 'C20.R19',
+                  key(_fcs, f'{norm(_n.ast)[:30]} uses the lower-cased host'),
+                  'listen_host = listen_host.lower() on every path',
+                  'forward_remote_port("LocalHost", ...) is set up on the '
+                  'server but every connection is refused: 0 of 16384 '
+                  'bytes relayed', k.loc(_fcs, _n))
